@@ -576,7 +576,7 @@ var c08 = &h.Campaign[HTTPCase]{
 					o.Val = rapid.SampledFrom([][]byte{[]byte("PRE-STORED-SECRET-A"), []byte("pre-stored-\x01\x02-B"), []byte("x"), {}}).Draw(rt, "preval")
 				}
 				return o
-			}), 0, 10).Draw(rt, "pre"),
+			}), h.LenBias(rt, 0, 10), 10).Draw(rt, "pre"),
 			Reqs: rapid.SliceOfN(rapid.Custom(genHReq), 1, 12).Draw(rt, "reqs"),
 		}
 	},
